@@ -1,8 +1,8 @@
 SPECIFICATION Spec
 CONSTANTS
-  Ids = {0, 1, 2, 5}
+  Ids = {0, 1, 2, 5, 6}
   MaxLen = 4
-  NRand = 40
+  NRand = 60
 INVARIANTS
   Inv_Rule
   Inv_WFD
